@@ -83,14 +83,19 @@ inline int gen_len(pbt::Source& src, int maxl) {
 inline Shape gen_shape(pbt::Source& src) {
     Shape sh;
     // selectors first
-    sh.m = 1 + (int)src.weighted({2, 5, 5, 4, 3, 2, 2, 2});
+    // m = 1..8 mostly; sometimes 17..40: more runs than the insertion-sort threshold (16) of std::sort, so
+    // that the order in which library sorts leave equal sample keys matters (seeded change seeded/C07)
+    {
+        int mi = (int)src.weighted({2, 5, 5, 4, 3, 2, 2, 2, 3});
+        sh.m = mi < 8 ? 1 + mi : (int)src.range(17, 40);
+    }
     int dk = (int)src.range(0, 6);
     sh.wide = dk == 6;
     sh.distinct = sh.wide ? 1000 : dk + 1;
     int stride = src.boolean() ? 3 : 1;
     bool big = src.chance(40);
     bool prng = src.chance(96);
-    int maxl = big ? 70 : 40;
+    int maxl = sh.m > 8 ? 10 : big ? 70 : 40;
     sh.keys.resize(sh.m);
     std::vector<int> lens(sh.m);
     for (int i = 0; i < sh.m; ++i) lens[i] = gen_len(src, maxl);
